@@ -297,11 +297,13 @@ class Poly:
         return " + ".join(out)
 
     # ---- calculus
-    def diff(self, var):
+    def diff(self, var, tag=None):
+        """derivative w.r.t. the canonical variable `var`; with a tag, only through atoms that carry the tag in their dependency
+        set (the perturbation of ONE differentiation: values captured from an enclosing scope are constants for it)"""
         res = Poly()
         for k, v in self.t.items():
             for (a, e) in k:
-                da = datom(a, var)
+                da = datom(a, var, tag)
                 if da is None:
                     continue
                 rest = dict(k)
@@ -631,8 +633,10 @@ def var_key(a):
     return None
 
 
-def datom(a, var):
+def datom(a, var, adtag=None):
     tag = a[0]
+    if adtag is not None and adtag not in atom_deps(a):
+        return None
     if var_key(a) == var:
         return Poly.const(1)
     if tag == 'U':
@@ -644,10 +648,10 @@ def datom(a, var):
                 return None
         return Poly.atom(('U', a[1], a[2], tuple(sorted(a[3] + (var,), key=_key)), a[4], a[5], a[6]))
     if tag == 'Log':
-        d = datom(a[1], var)
+        d = datom(a[1], var, adtag)
         return None if d is None else d / Poly.atom(a[1])
     if tag == 'Inv':
-        d = a[1].diff(var)
+        d = a[1].diff(var, adtag)
         if d.is_zero():
             return None
         return -d * Poly.atom(a) * Poly.atom(a)
@@ -1430,6 +1434,23 @@ def jnp_reshape(a, shape):
             return AT(tuple(tgt), a.data.reshape(tuple(x for x in tgt if isinstance(x, int))))
         if sp and list(core[:2]) == [sp[1], sp[0]]:
             raise Finding(f"reshape of a product row axis {src[0]} to ({core[0]}, {core[1]}): the major axis comes first")
+    if core != src and -1 not in tgt:
+        # the named axes keep their order and the concrete axes between them are regrouped run by run with the same number of
+        # elements per run ((12, G0, G1) -> (4, 3, G0, G1)): a row-major reshape of the concrete part alone
+        def runs(ax):
+            out, cur = [], []
+            for x in ax:
+                if isinstance(x, int):
+                    cur.append(x)
+                else:
+                    out.append(('c', cur)); out.append(('n', x)); cur = []
+            out.append(('c', cur))
+            return out
+        import math
+        ra, rt = runs(a.axes), runs(tgt)
+        if len(ra) == len(rt) and all((x[0] == y[0]) and (x[1] == y[1] if x[0] == 'n' else math.prod(x[1]) == math.prod(y[1]))
+                                      for x, y in zip(ra, rt)):
+            return AT(tuple(tgt), a.data.reshape(tuple(x for x in tgt if isinstance(x, int))))
     if core != src:
         if [x for x in core if not isinstance(x, int)] == [x for x in src if not isinstance(x, int)]:
             import math
@@ -1746,6 +1767,104 @@ def vars_of(arg):
     return arg.axes, vs
 
 
+_AD_TAGS = [0]
+
+
+def is_ad_tag(x):
+    return isinstance(x, str) and x.startswith('#ad')
+
+
+def _new_ad_tag():
+    _AD_TAGS[0] += 1
+    return f"#ad{_AD_TAGS[0]}"
+
+
+def ad_tag_primal(x, tag):
+    """the primal of one differentiation: its variable atoms carry the tag, so that what the differentiated function computes FROM
+    ITS ARGUMENT can be told from what it merely captures from an enclosing scope (same coordinates, but constants for jax)"""
+    return x.map(lambda p: p.map_atoms(lambda a: map_deps(a, lambda s_: s_ | {tag}) if a[0] in ('X', 'T') else a))
+
+
+def ad_untag(v, tag):
+    """remove the tag everywhere (atoms, binders, parameter fingerprints of network atoms, opaque terms)"""
+    def ua(a):
+        a = map_deps(a, lambda s_: s_ - {tag})
+        if a[0] == 'U':
+            a = a[:5] + (ad_untag(a[5], tag),) + a[6:]
+        elif a[0] == 'S':
+            a = ('S', ad_untag(a[1], tag))
+        elif a[0] in ('FloorDiv', 'Mod'):
+            a = (a[0], ad_untag(a[1], tag), ad_untag(a[2], tag))
+        return a
+    if isinstance(v, Poly):
+        return v.map_atoms(ua) if tag in _deep_deps(v) else v
+    if isinstance(v, AT):
+        return v.map(lambda p: ad_untag(p, tag))
+    if isinstance(v, Sym):
+        return Sym(v.op, *[ad_untag(x, tag) for x in v.args])
+    if isinstance(v, tuple) and not hasattr(v, '_fields'):
+        return tuple(ad_untag(x, tag) for x in v)
+    if isinstance(v, list):
+        return [ad_untag(x, tag) for x in v]
+    if isinstance(v, dict):
+        return {k: ad_untag(x, tag) for k, x in v.items()}
+    if isinstance(v, frozenset):
+        return frozenset(x for x in v if x != tag)
+    return v
+
+
+def _deep_deps(p):
+    """all dependency marks occurring anywhere in the polynomial (including fingerprints and opaque terms)"""
+    out = set()
+
+    def rec(x):
+        if isinstance(x, Poly):
+            for a in x.atoms():
+                ra(a)
+        elif isinstance(x, AT):
+            for q in x.entries():
+                rec(q)
+        elif isinstance(x, Sym):
+            for y in x.args:
+                rec(y)
+        elif isinstance(x, (tuple, list)):
+            for y in x:
+                rec(y)
+        elif isinstance(x, dict):
+            for y in x.values():
+                rec(y)
+        elif isinstance(x, (set, frozenset)):
+            out.update(y for y in x if isinstance(y, str))
+
+    def ra(a):
+        out.update(d_ for d_ in atom_deps(a) if isinstance(d_, str))
+        if a[0] == 'U':
+            rec(a[5])
+        elif a[0] == 'S':
+            rec(a[1])
+        elif a[0] in ('Mean', 'Sum'):
+            rec(a[2])
+        elif a[0] in ('Abs', 'Inv', 'Sqrt'):
+            rec(a[1])
+        elif a[0] == 'Log':
+            ra(a[1])
+        elif a[0] in ('FloorDiv', 'Mod'):
+            rec(a[1]); rec(a[2])
+    rec(p)
+    return out
+
+
+def _tagged_call(f, args, k):
+    """evaluate f with its k-th argument tagged; returns (value, variables, axes, tag)"""
+    if not isinstance(args[k], AT):
+        raise Top(f"differentiation w.r.t. a non-tensor argument {type(args[k]).__name__}")
+    axes, vs = vars_of(args[k])
+    tag = _new_ad_tag()
+    a2 = list(args)
+    a2[k] = ad_tag_primal(args[k], tag)
+    return f(*a2), vs, axes, tag
+
+
 def _argnum(argnums):
     n = _dim(argnums)
     if not isinstance(n, int):
@@ -1764,21 +1883,21 @@ def jax_grad(f, argnums=0, **kw):
         return _multi_argnums(jax_grad, f, argnums, kw)
 
     def g(*args):
-        val = to_at(f(*args))
-        if val.axes != ():
-            raise Finding(f"grad of a function whose value has axes {val.axes} (a scalar is required)")
-        p = val.scalar()
         k = _argnum(argnums)
         if k >= len(args):
             raise Finding(f"grad argnums={k} but the function is applied to {len(args)} arguments")
         if not isinstance(args[k], AT):
             raise Top(f"grad w.r.t. a non-tensor argument {type(args[k]).__name__}")
-        axes, vs = vars_of(args[k])
+        val, vs, axes, tag = _tagged_call(f, args, k)
+        val = to_at(val)
+        if val.axes != ():
+            raise Finding(f"grad of a function whose value has axes {val.axes} (a scalar is required)")
+        p = val.scalar()
         if not all(isinstance(a, int) for a in axes):
             raise Top("grad w.r.t. a batched argument")
         out = np.empty(vs.shape, dtype=object)
         for i in np.ndindex(vs.shape):
-            out[i] = p.diff(vs[i])
+            out[i] = ad_untag(p.diff(vs[i], tag), tag)
         return AT(tuple(axes), out)
     return g
 
@@ -1788,31 +1907,31 @@ def jax_jac(f, argnums=0, **kw):
         return _multi_argnums(jax_jac, f, argnums, kw)
 
     def g(*args):
-        val = to_at(f(*args))
         k = _argnum(argnums)
-        axes, vs = vars_of(args[k])
+        val, vs, axes, tag = _tagged_call(f, args, k)
+        val = to_at(val)
         if len(vs.shape) != 1:
             raise Top("jacobian w.r.t. a non-vector")
-        cols = [val.map(lambda p, v=v: p.diff(v)) for v in vs]
+        cols = [val.map(lambda p, v=v: ad_untag(p.diff(v, tag), tag)) for v in vs]
         return jnp_stack(cols, axis=-1)
     return g
 
 
 def jax_hessian(f, argnums=0, **kw):
     def h(*args):
-        val = to_at(f(*args))
+        k = _argnum(argnums)
+        val, vs, axes, tag = _tagged_call(f, args, k)
+        val = to_at(val)
         if val.axes != ():
             raise Finding(f"hessian of a function whose value has axes {val.axes}")
         p = val.scalar()
-        k = _argnum(argnums)
-        axes, vs = vars_of(args[k])
         if len(vs.shape) != 1:
             raise Top("hessian w.r.t. a non-vector")
         n = len(vs)
         d = np.empty((n, n), dtype=object)
         for i in range(n):
             for j in range(n):
-                d[i, j] = p.diff(vs[i]).diff(vs[j])
+                d[i, j] = ad_untag(p.diff(vs[i], tag).diff(vs[j], tag), tag)
         return AT((n, n), d)
     return h
 
@@ -1821,8 +1940,9 @@ def jax_jvp(f, primals, tangents, **kw):
     if len(primals) != 1 or len(tangents) != 1:
         raise Top("jvp with several primals")
     x, v = to_at(primals[0]), to_at(tangents[0])
-    y = f(x)
     axes, vs = vars_of(x)
+    tag = _new_ad_tag()
+    y = f(ad_tag_primal(x, tag))
     if v.axes != x.axes:
         raise Finding(f"jvp tangent axes {v.axes} differ from primal axes {x.axes}")
 
@@ -1831,15 +1951,19 @@ def jax_jvp(f, primals, tangents, **kw):
         for i in np.ndindex(vs.shape):
             if v.data[i].is_zero():
                 continue
-            r = r + v.data[i] * p.diff(vs[i])
-        return r
+            r = r + v.data[i] * p.diff(vs[i], tag)
+        return ad_untag(r, tag)
 
     def rec(o):
         if isinstance(o, tuple):
             return tuple(rec(z) for z in o)
         return to_at(o).map(d)
-    yt = y if isinstance(y, tuple) else to_at(y)
-    return yt, rec(y)
+
+    def prim(o):
+        if isinstance(o, tuple):
+            return tuple(prim(z) for z in o)
+        return ad_untag(to_at(o), tag)
+    return prim(y), rec(y)
 
 
 def lax_scan(f, init, xs, **kw):
